@@ -138,6 +138,8 @@ WHAT = {
     'C13-8': ('eval_number parser: superscript `²` builds `Multiply(x, x)`', '`2.0²` is Float(4.0) while `2.0^2` is Integer(4)'),
     'C20-6': ('eval_decimal `*`: returns `Decimal::ZERO` without evaluating the other side when an operand *node* is a literal zero', '`(1-1)*(1/0)` = Err but `@*(1/0)` with 0 = Ok(0); `1.50*(1-1)` = 0.00 but `1.50*@` = 0'),
     'C18-4': ('`Number::from(f64)`: integrality test `.abs() < f64::EPSILON` (found independently of C10-3)', 'positive doubles below EPSILON (5e-324, 1e-300): Integer(0)'),
+    'C07-7': ('eval_decimal `-`: `saturating_sub` instead of `checked(..checked_sub(..))`', 'a difference outside the Decimal range: `79228162514264337593543950335-(-1)` = Ok(MAX) instead of Err'),
+    'C08-7': ('eval_complex `root(n, x)`: real-index fast path `from_polar(|x|^(1/n), atan(im/re)/n)`', 'a radicand with Re(x) < 0: `root(2,4i-3)` = 2-1i (principal value 1+2i)'),
     'C11-8': ('eval_i64 `med` of an even count: `lo + (hi - lo) / 2` with checked_sub (found independently of C11-1)', 'two middle values with a negative odd sum: `med(-3,2)` = -1'),
 }
 
